@@ -24,8 +24,8 @@ def main():
     ap.add_argument('--only', type=int, default=None, help='record only behaviour number B (replay)')
     a = ap.parse_args()
     import concepts
-    assert os.path.realpath(concepts.__file__).startswith(os.path.realpath(os.environ.get('VERIF_REPO', '/repo'))), \
-        concepts.__file__
+    if not os.path.realpath(concepts.__file__).startswith(os.path.realpath(os.environ.get('VERIF_REPO', '/repo'))):
+        raise SystemExit('wrong copy of concepts imported: ' + concepts.__file__)
     fams = ctxplan.FAMILIES[a.prop]
     items = ctxplan.plan(a.prop, a.tier, a.seed)
     stats = {'behaviours': 0, 'events': 0, 'nontrivial': 0, 'samples': [], 'exhaustive_tables': 0,
